@@ -26,10 +26,13 @@ from fractions import Fraction
 
 import numpy as np
 
+import c08_spec
 from common import Ctx, Finding, Outcome
 
 PROPERTY = "C08"
-LEAN_TARGETS = ["QcelVerif.Props.C08", "QcelVerif.Props.C08Seq", "QcelVerif.Driver.C08"]
+LEAN_TARGETS = ["QcelVerif.Props.C08", "QcelVerif.Props.C08Seq", "QcelVerif.Props.C08Spec", "QcelVerif.Props.C08Whole", "QcelVerif.Driver.C08"]
+# Gen/ToStringSpec.lean is rewritten from QCEL_REPO/qcelemental/molparse/to_string.py (+ Molecule.to_string) on every run
+TRANSLATORS = [c08_spec.gen_tostring_spec]
 DRIVER = "QcelVerif/Driver/C08.lean"
 THEOREMS = [
     ("QcelVerif.FixedFmt.rhe_isNearestEven", "the rounding used by the fixed-point printer returns a nearest integer to tn/td, the even one on an exact tie"),
@@ -52,10 +55,37 @@ THEOREMS = [
     ("QcelVerif.ToString.unit_none_rows", "the rows that write the word None instead of a unit are exactly cfour/molpro/gamess/madness x nm,pm (outside the property's quantifier)"),
     ("QcelVerif.ToString.spell_tells_labels_apart", "sibling molecules: nwchem / psi4 spell two atoms of the same kind alike only if symbol+label agree, so a text carrying another molecule's labels is not this molecule's text"),
     ("QcelVerif.ToString.spell_tells_ghost_apart", "sibling molecules: every format except molpro/mrchem/turbomole/sdf spells the ghost and the real atom of the same element, label and Z differently (any label, any Z)"),
+    # --- Props/C08Spec.lean: the model's templates are those of to_string.py (Gen/ToStringSpec.lean, regenerated on every run)
+    ("QcelVerif.ToString.dtype_set_eq", "[regenerated from to_string.py] the branches of the source's if/elif dtype chain, in source order, are the model's fourteen dtypes, each once; the names are read alike by the driver's parseDtype?; every dtype of the model has a branch"),
+    ("QcelVerif.ToString.umap_eq", "unit announcement texts: for every dtype and unit the model's umap entry is the source's per-branch umap dictionary entry (au, '', '! Bohrs', '!', angstroms, nanometers, picometers, angs, True/False ...)"),
+    ("QcelVerif.ToString.unit_word_eq", "for every dtype and unit the model's unitWord (word / Python None / KeyError / SDF ValueError / no slot) is what the source's branch does with its umap: umap.get(u, u), umap.get(u), umap[u], the bare lookup of turbomole, SDF's units.capitalize() != 'Angstrom' guard"),
+    ("QcelVerif.ToString.select_factor_eq", "for every stored unit, target unit and pinned flag the model's selectFactor is the source's if/elif chain on (molrec['units'], units.capitalize()) with its right-hand sides 1.0 / input_units_to_au if present else 1.0/bohr2angstroms / bohr2angstroms / conversion_factor"),
+    ("QcelVerif.ToString.fields_eq", "for every dtype data.fields of the model = class Data's base list + the branch's data.fields.extend([...]) literal, in order"),
+    ("QcelVerif.ToString.keywords_eq", "for every dtype, molecule and unit word: the model's data.keywords (key names, conditions multiplicity != 1 / fix_symmetry == 'c1', constant values, which molecule datum fills each) = the interpretation of the source's data.keywords dict literal and data.keywords[k] = v assignments"),
+    ("QcelVerif.ToString.layout_eq", "for every dtype, molecule, unit word, atom block and fragment-loop output: the model's header ++ body ++ footer = the interpretation of the source's line program (every literal line, f-string hole, .rstrip(), condition, position of the atom block, molpro dummy card, SDF counts/bond layouts)"),
+    ("QcelVerif.ToString.frag_eq", "for every dtype and molecule: the model's body stage = the source's fragment loop (np.split, separator literal '--', the '{charge} {multiplicity}' header per block, only when more than one block) for psi4/qchem, the lower-cased / plain atom block otherwise"),
+    ("QcelVerif.ToString.sdf_layout_eq", "for every atom, bond and ghost word: the SDF atom line (10.4f coordinates, >3s symbol, tail literal) and bond line (2d/2d/1d, literals) of the model are the source's f-strings; the driver's float check uses the source's 4 decimals for this branch"),
+    ("QcelVerif.ToString.render_eq_source", "HEADLINE tie: for every option set and every molecule (no size bound) the hand model render = renderBy, the interpreter of Model/ToStringSrc.lean run on the tables generated from to_string.py (text lines, fields, keywords and error outcome)"),
+    ("QcelVerif.ToString.chgmult_slots_eq", "read off the generated tables: per program the text slots (literal before the value, value kind int(charge) / float charge / multiplicity / multiplicity-1) and keyword slots (name, condition, value kind) that state the total charge and multiplicity - exactly those chgmult_stated proves correct; terachem/turbomole/nglview-sdf have none"),
+    ("QcelVerif.ToString.coord_format_spec_eq", "_atoms_formatter's format specs parse to: coordinates '{:>{width}.{prec}f}' = right-aligned, width, prec decimals, fixed notation; label '{:{width}}'; separator '{:{sp}}'; atominfo offers exactly the five fields the model's fieldValue knows; lines joined and terminated by newline"),
+    ("QcelVerif.ToString.atomLine_follows_specs", "for every width, label and coordinate texts: the model's atomLine (both column orders) = the parts padded as the parsed source specs say and joined by the separator spec applied to '' with sp = 2"),
+    ("QcelVerif.ToString.spelling_source", "the spelling theorem restated over the format strings read from the source (Gen/SrcConsts to_string.formats): for every program but nglview-sdf and every atom, substituting the atom's fields into the SOURCE's atom / ghost format literal gives the program's spelling spell d a"),
+    ("QcelVerif.ToString.raw_request_sound", "the driver is handed the caller's dtype / units strings as given; whenever the model accepts a units string as a Bohr / Angstrom request, units.capitalize() (the factor chain's test) and units.lower() (the umap key) are those of that unit; nm / pm are accepted only as written; anything else is refused by the model (bad-op), never guessed"),
+    ("QcelVerif.ToString.molecule_route_eq", "[regenerated from molecule.py] Molecule.to_string declares the same arguments and defaults as molparse.to_string, builds from_schema(self.dict(), nonphysical=True) and forwards every option unchanged by name"),
+    ("QcelVerif.ToString.announced_unit_is_used_source", "the unit decision restated over the generated tables only (default_units of Gen/SrcConsts, the branch's umap and access, the source's factor chain): whenever the word the SOURCE's branch writes is read by the target program as unit u, the factor the SOURCE's chain selects is the one converting stored -> u (14 x 2 x 5 x 2 rows)"),
+    ("QcelVerif.ToString.unit_error_rows_source", "the rows that raise, computed from the generated tables, are exactly refuses (orca/terachem/psi4/qchem x nm,pm and turbomole x not-Bohr: KeyError; sdf x not-Angstrom: ValueError)"),
+    # --- Props/C08Whole.lean: the clauses stated about the OUTPUT of render (what the driver compares with the implementation)
+    ("QcelVerif.ToString.rendered_atoms", "for every successful render of a non-SDF dtype on a molecule with three coordinates per atom and ascending separators: reading r.lines back by the format's layout gives exactly one line per shown atom, in the molecule's order, made of the label the branch's formats give that atom and its own coordinate texts"),
+    ("QcelVerif.ToString.rendered_atoms_sdf", "for every successful nglview-sdf render: lines 3 .. 3+natoms of r.lines are one SDF atom line per atom of the molecule, in order, ghosts under the ghost word"),
+    ("QcelVerif.ToString.rendered_chgmult", "for every successful render: the total charge and multiplicity sit in r.lines at the stated position from the top (xyz, xyz+, orca, psi4, qchem, mrchem) or bottom (molpro: charge as c.0, spin = mult-1), or in r.keywords under the program's names (cfour, gamess, nwchem incl. nopen = mult-1 only for non-singlets, madness flag, mrchem), with the molecule's values"),
+    ("QcelVerif.ToString.render_shows_unit", "for every successful render there is the unit word uw of this call and r shows it at the program's own place: count line (xyz, xyz+, terachem), first line (orca, nwchem), second line (madness), the line before geometry={ (molpro), the first line after the atoms (psi4), keyword units / contrl__units / input_bohr (cfour, gamess, qchem); turbomole, nglview-sdf, mrchem write none"),
+    ("QcelVerif.ToString.rendered_unit_is_used", "end to end: render succeeded, the driver's parameter check passed and the unit word of this call is read by the target program as unit u => the factor converting stored -> u has a checked value f and every coordinate text is the unique correctly rounded decimal of a double within relative 2^-53 of stored x * f"),
 ]
 TRUSTED_BASE = [
     "Lean 4.33 kernel; axioms per theorem audited on every run (subset of propext, Classical.choice, Quot.sound)",
-    "hand-written model Model/ToString.lean of to_string.py:73-511 tied by differential correspondence (exact text, fields, typed keywords) on the generated stream",
+    "hand-written model Model/ToString.lean of to_string.py:73-511. REGENERATED FROM THE SOURCE on every run and proved equal to the model for ALL inputs (Props/C08Spec.lean render_eq_source; broken build = broken obligation): per dtype branch the umap dictionary and how it is read, the whole list smol as a line program (literal lines, f-string holes, conditions, .rstrip(), atom block position, fragment loop with its separator and header line, molpro dummy card, SDF counts/atom/bond layouts), data.fields, data.keywords (names, conditions, values), the factor-selection chain, _atoms_formatter's three format specs, tagline, join; Molecule.to_string's defaults / from_schema call / forwarding. Still tied only by differential correspondence (exact text, fields, typed keywords on the generated stream): the MEANING of the recognised Python shapes (Model/ToStringSrc.lean: f-string substitution, str.format of the atom/ghost formats, rstrip/strip/upper/lower, np.split, dict/list building order) and formula_generator",
+    "dtype.lower(), units.capitalize() and units.lower() are applied by the MODEL (Model/ToStringSrc.lean dtypeOfRaw / reqOfRaw): the driver receives the caller's strings as given (upper/mixed-case dtype names and Bohr/Angstrom spellings are part of the generated stream); the harness still lower-cases them for its own oracle",
+    "translator harness/c08_spec.py (python `ast` of qcelemental/molparse/to_string.py and models/molecule.py -> lean/QcelVerif/Gen/ToStringSpec.lean): a small symbolic executor of each branch body; only the syntax tree is read; a statement / expression / condition / if-elif pair it does not recognise, a dtype in the source that the model lacks (or the reverse), a second atom block or a keyword written twice raise SpecError: the run reports a broken obligation and the generated file is replaced by a stub that cannot satisfy Props/C08Spec.lean. Hole expressions are recognised by their normalised source text (e.g. int(molrec['molecular_charge'])) and given their meaning in Model/ToStringSrc.lean by hand",
     "CPython format(x, '.{p}f') and str(float): taken as parameters; every printed coordinate is checked by the Lean checker isFixedRounding against the exact rational of the double (Model/FixedFmt.lean)",
     "numpy elementwise double multiply geom*factor: the product is a parameter, checked against the exact product with the model-selected factor under the IEEE standard model |p - xf| <= 2^-53 |xf|",
     "constants.bohr2angstroms (C02) and constants.conversion_factor (C03) values are parameters; the oracle checks conversion_factor against the SI definitions (relative 1e-12)",
@@ -71,6 +101,7 @@ ASSUMPTIONS = [
     "formats without a charge/multiplicity slot (terachem, turbomole, nglview-sdf; madness has no multiplicity value, only spin_restricted) are outside the chgmult clause and counted in the distribution",
     "width >= 1; precision 0..16",
     "call sequences stay inside the quantifier: every member of a family is a from_arrays-validated molecule, or a Molecule.copy(update=...) of one that changes only name / fix_com / fix_orientation / fix_symmetry / lower-case atom_labels (fields validation leaves as they are; a copy with an upper-case label is not a validated molecule: validation lower-cases labels)",
+    "the source tie (Props/C08Spec.lean) holds in the model's integer-charge scope: the hole `molrec['molecular_charge']` of molpro's `set,charge=` line is interpreted as str() of an integral float (c.0); int(...) of a charge as the integer itself",
     "text-only answers (return_data=False, Molecule.to_file): clauses whose slot is a keyword (cfour/nwchem/madness/gamess charge+multiplicity, cfour/gamess/qchem unit, mrchem keywords) are not evaluated; the rest is",
     "oracle:call_history demands that a call's answer (text, fields, keywords) does not depend on what the process wrote before; oracle:argument_mutated that to_string leaves the molrec / Molecule it is given unchanged - both are what 'the text states the molecule it was made from' needs once objects are reused",
 ]
@@ -89,11 +120,14 @@ RULE = (
 )
 LEVEL_TEXT = (
     "Lean proofs (any number of atoms/fragments) about a hand model of to_string: atom lines once and in order, layout read-back, spellings, fragment partition, dummy indices, "
-    "charge/multiplicity slots, and the complete unit decision table; partial: the theorems are close to the templates, float printing/multiplication are checked parameters, "
-    "and the model is tied to the code by exact-text differential runs, not by proof. Independence of a text from earlier calls (caches, shared or edited objects) is searched, not proved: "
+    "charge/multiplicity slots, and the complete unit decision table; these clauses are also composed into statements about the OUTPUT of render (Props/C08Whole.lean: atoms read back from r.lines, "
+    "charge/multiplicity at their line/keyword of r, the unit word at the program's place in r, and end to end: announced unit u => every checked coordinate is the correctly rounded print of stored x * factor(stored -> u)). "
+    "The model's templates are no longer only hand-copied: every literal, condition, keyword, umap, the factor chain and the format specs are re-read from to_string.py by `ast` on every run and the model is PROVED equal, "
+    "for all molecules and options, to an interpreter run on those tables (render_eq_source); the unit decision theorem is restated over the generated tables. Partial: float printing/multiplication are checked parameters; "
+    "the meaning given to the recognised Python shapes (the interpreter) and everything the translator maps by name are tied to the code by exact-text differential runs, not by proof. Independence of a text from earlier calls (caches, shared or edited objects) is searched, not proved: "
     "sampled call sequences over sibling molecules compared with a history-free model and with fresh processes."
 )
-TECHNIQUE = "Lean 4 proof of list/template theorems and a finite decision table + exact-text behavioural correspondence + independent extractor oracle"
+TECHNIQUE = "Lean 4 proof of list/template theorems and a finite decision table + ast translator of the branch bodies into line programs with a proved-equal table-driven renderer + exact-text behavioural correspondence + independent extractor oracle"
 
 DTYPES = ["xyz", "xyz+", "cfour", "gamess", "molpro", "nwchem", "orca", "psi4", "qchem", "terachem", "turbomole", "madness", "mrchem", "nglview-sdf"]
 DEFAULT_UNIT = {d: "bohr" for d in DTYPES}
@@ -430,8 +464,9 @@ def enc_case(rec, o) -> str:
             p = float(prod[i, j])
             parts += [frac(geom[i, j]), frac(p), "1" if math.copysign(1.0, p) < 0 else "0", hx(format(p, f".{prec}f"))]
         atoms.append(",".join(parts))
+    # dtype and units go to the driver as the caller gave them: the model applies dtype.lower(), units.capitalize() / units.lower()
     fields = [
-        d, req,
+        "raw:" + hx(o["dtype"]), "D" if o["units"] is None else "raw:" + hx(o["units"]),
         "N" if o["atom_format"] is None else hx(o["atom_format"]),
         "N" if o["ghost_format"] is None else hx(o["ghost_format"]),
         str(o["width"]), str(o["prec"]),
